@@ -46,7 +46,9 @@ THEOREMS['C15'] = ['FB.C15_spec_build_refused', 'FB.C15_impl_build_refused', 'FB
 THEOREMS['C18'] = ['FB.sanitize_shape', 'FB.sanitize_idempotent', 'FB.sanitize_rejects_iff', 'FB.isEqual_refl',
                    'FB.isEqual_symm', 'FB.isEqual_trans', 'FB.toHashable_iff',
                    'FB.isEqual_int_float', 'FB.isEqual_bool_num', 'FB.isEqual_list_tuple']
-THEOREMS['C07'] = ['FB.C07_subkey_iff', 'FB.C07_lookupFile_needs_equal_args', 'FB.toHashable_iff', 'FB.sanitize_idempotent']
+THEOREMS['C07'] = ['FB.C07_subkey_iff', 'FB.C07_lookupFile_needs_equal_args', 'FB.toHashable_iff', 'FB.sanitize_idempotent',
+                   'FB.PathNorm.abspath_clean', 'FB.PathNorm.abspath_idempotent', 'FB.PathNorm.abspath_relative',
+                   'FB.PathNorm.loop_skip', 'FB.PathNorm.loop_detour']
 
 # oracle categories (hist.analyze) that are a failing input of the property on the real code
 ORACLE = {
@@ -258,10 +260,11 @@ def finish(prop, rep, gate):
 
 
 def run_hist_prop(prop, tier, salt, n_quick, n_thorough, families=gen.SCENARIOS, per_family=(25, 600),
-                  prof=gen.DEFAULT_PROFILE, extra_cases=None, **kw):
+                  prof=gen.DEFAULT_PROFILE, extra_cases=None, unit_tie=None, **kw):
     rep = core.Report(prop, tier)
     gate = core.proof_gate(THEOREMS[prop], tier)
     ds = measure()
+    unit_problems = unit_tie[1](tier, rep) if unit_tie else []
     cases = corpus_cases(ds)
     cases += gen.gen_scenario_cases(core.seed() * 31 + salt, budget(tier, *per_family), ds, families)
     if extra_cases:
@@ -273,6 +276,11 @@ def run_hist_prop(prop, tier, salt, n_quick, n_thorough, families=gen.SCENARIOS,
         if not str(c.get('seed', '')).startswith('corpus:') and (prop == 'C07' or i % 4 == 0):
             c['spell'] = core.seed() * 7919 + i
     explore(prop, tier, rep, cases)
+    if unit_problems and not rep.violations:
+        # a unit-level model and the code disagree and the histories exhibit no failing input
+        q = unit_problems[0]
+        rep.violation('unit_tie', {'property': prop, 'kind': 'correspondence-broken', 'no_longer_checks': unit_tie[0],
+                                   'what': q}, note='%s: %s' % (q.get('what'), json.dumps(q, default=str)[:200]), no_input=True)
     return finish(prop, rep, gate)
 
 
@@ -353,8 +361,11 @@ def check_C06(tier):
 
 
 def check_C07(tier):
+    from . import pathcheck
     return run_hist_prop('C07', tier, 7, 700, 30000, families=[gen.scen_dups, gen.scen_identity], per_family=(120, 2500), prof=RICH_ARGS,
-                         p_fail=0.05, p_clean=0.0)
+                         p_fail=0.05, p_clean=0.0,
+                         unit_tie=('FB.PathNorm.abspath (abspath_clean, abspath_idempotent, loop_skip, loop_detour) describes '
+                                   'FileBuilder._sanitize_filename', pathcheck.run))
 
 
 def check_C08(tier):
